@@ -133,6 +133,10 @@ def keyfn(b):
 def run(tier):
     chk = Check(PROP, tier)
     chk.model("MC_Reader", cfg="MC_Reader.cfg" if tier == "quick" else "MC_Reader_thorough.cfg", timeout=3000)
+    # the loop as a step-level machine against an adversarial, never-ending source: bounded refinement to
+    # SignFlow (TLC), invariants for unbounded retries / scripts / Unit in {1, 2, 32} (Apalache)
+    chk.model("MC_SignLoop", cfg="MC_SignLoop.cfg" if tier == "quick" else "MC_SignLoop_thorough.cfg", timeout=3000)
+    chk.inductive("SignLoop", cinit="CInit")
     chk.exec_and_validate("T_SM2", gen(chk, tier), keyfn, accel=True, families=("bits", "big"))
     return chk.finish(
         "model_checking",
@@ -142,6 +146,8 @@ def run(tier):
         "next call, EOF or other); ragged short reads; nil reader; wrappers; for GenerateKey and SignHashed; TLC "
         "recomputes (error?, outputs nil?, bytes consumed) with SignFlow over Reader",
         ["TLC; SignFlow/Reader model-checked exhaustively against the unit-stream definition in MC_Reader",
+         "SignLoop (one action per Read / candidate test, source = environment): IndInv discharged by Apalache for every "
+         "reachable state; MC_SignLoop checks with TLC that SignLoop's outcomes are SignFlow's on the recorded script",
          "an error accompanying the bytes that complete a unit is not a failure of that draw (io.ReadFull semantics)"])
 
 
